@@ -92,6 +92,11 @@ def signature(res):
             frame = fn
             break
         return "asan:%s@%s" % (kind, frame[:60])
+    if res.cls in ("signal", "abort"):
+        # a failed C assertion names its function and condition: that, not the bare signal number, identifies the defect
+        m = re.search(r": ([A-Za-z_0-9]+): Assertion `([^']{1,80})' failed", err)
+        if m:
+            return "assert@%s:%s" % (m.group(1), m.group(2))
     if res.cls == "signal":
         return "signal:%d" % (-res.rc)
     return res.cls
